@@ -683,6 +683,27 @@ func Gen(r *sim.Rng, kind string) (*sim.WorldSpec, *Meta) {
 			methods = append(methods, tw)
 		}
 	}
+	if kind == "noerr" && r.Chance(1, 4) {
+		// one error-returning hook named by two methods: G0 has an error result (the
+		// hook fits), G1 - built after it - has none. Whatever the tree remembers
+		// about the hook from G0 must not wire it into G1.
+		which := sim.Pick(r, []string{"pre", "post"})
+		h := &HookMeta{Name: "ErrHookShared", Site: "ErrHookShared", DstPtr: true, SrcPtr: true, RetErr: true}
+		localHooks.WriteString(hookText("ErrHookShared", h.Site, which, h, "md.D", "ms.S", nil, ""))
+		note := map[string]string{"pre": ":preprocess ", "post": ":postprocess "}[which] + h.Name
+		g0 := MethodMeta{Name: "G0", Family: "normal", Style: "return", DstPtr: true, SrcPtr: true, RetErr: true, Notes: []string{note}, Capable: []string{h.Site}}
+		if which == "pre" {
+			g0.Pre = h
+		} else {
+			g0.Post = h
+		}
+		g1 := MethodMeta{Name: "G1", Family: "noerr", Style: "return", DstPtr: true, SrcPtr: true, Notes: []string{note}}
+		if r.Bool() {
+			g1.Style, g1.Notes = "arg", append(g1.Notes, ":style arg")
+		}
+		methods = append(methods, g0, g1)
+		meta.Kind = "noerr" // (unchanged: the world is judged like every noerr world)
+	}
 	if needSub {
 		sub := MethodMeta{Name: "SubN", Sub: true, Style: "return", RetErr: true, Family: "normal", Notes: []string{":conv cNX X"}, Capable: []string{"cNX"}}
 		methods = append(methods, sub)
